@@ -422,3 +422,21 @@ theorem attemptedOf_append (a b : List Ev) : attemptedOf (a ++ b) = attemptedOf 
   | cons e a ih => cases e <;> simp [attemptedOf, ih]
 
 end SV.WPath
+
+namespace SV.WPath
+
+/-- what the writer recorded in the header of a complete bulk's meta block: ext1 = length of its docs block,
+ext2 = the offset the docs block was written at -/
+theorem stamped_fields (bs : List (Blk × Blk)) (off : Nat) :
+    ∀ t ∈ stamped bs off, t.2.1.ext2 = t.2.2 ∧ t.2.1.ext1 = (enc t.1).length := by
+  induction bs generalizing off with
+  | nil => intro t ht; simp [stamped] at ht
+  | cons x bs ih =>
+    obtain ⟨d, m⟩ := x
+    intro t ht
+    simp only [stamped, List.mem_cons] at ht
+    rcases ht with rfl | ht
+    · exact ⟨rfl, rfl⟩
+    · exact ih _ t ht
+
+end SV.WPath
